@@ -390,6 +390,12 @@ def check_success(call, text, val):
             if a != b:
                 return 'layout-only formatting changed the non-whitespace ' \
                        'characters'
+        elif set(opts) <= LAYOUT_KEYS | {'keyword_case', 'identifier_case'}:
+            a = sorted(_ws.sub('', text).casefold())
+            b = sorted(_ws.sub('', val).casefold())
+            if a != b:
+                return 'case/layout-only formatting lost or added ' \
+                       'non-whitespace characters'
         return None
     return None
 
@@ -633,6 +639,13 @@ def on_crash(spec, st):
                % (st, c['api'], c['inp'].get('c'), c['inp'].get('d'))}],
         'stats': {'crashes': 1}, 'sigs': [], 'sigs_nt': [],
         'nontrivial': True}
+
+
+def on_timeout(spec, timeout):
+    return {'status': 'violation', 'viol': [{
+        'cls': 'hang', 'msg': 'the run did not finish within %.0f s of real '
+        'time (it normally takes milliseconds to seconds): a call on nested input hung the interpreter' % timeout}],
+        'stats': {'hangs': 1}, 'sigs': [], 'sigs_nt': [], 'nontrivial': True}
 
 
 # ---------------------------------------------------------------------------
